@@ -19,7 +19,9 @@
   * `…_sound`:    if both expansions are `.ok`, the observations are equal;
   * `…_accepts`:  if the original expansion is `.ok`, the rewritten one is `.ok` (with the same
                   observation) unless it is `.error .depth` — each rewrite adds one stack frame
-                  at the place of the rewrite, so a depth budget is unavoidable (defect D18).
+                  at the place of the rewrite, so a depth budget is unavoidable (defect D18, repaired:
+                  `C01_fold_headroom` says exactly how much room a fold needs, and the section "the
+                  depth side of the loop fold" ties it to the stack test of `find_match`).
 
   The hypotheses "no `SEGNO`" and "no `DRUM_MODE`" under which the optimiser applies the
   rewrites are NOT needed for these theorems: `obs` is compositional (`Rewrite.obs_append`) and
@@ -40,6 +42,7 @@
 -/
 import Ctrmml.Proofs.OptChain
 import Ctrmml.Proofs.OptCount
+import Ctrmml.Proofs.OptDepth
 namespace Ctrmml.C01
 open Ctrmml Ctrmml.Tree Ctrmml.Expand Ctrmml.Rewrite Tables
 
@@ -205,7 +208,7 @@ theorem C01_passes_preserve_nodepth (S : Song) (l : List Song) (hc : chain S l) 
 here, with the hypothesis that a normal return is a sequence of passes.  NOT proved, and not
 provable from that hypothesis alone: one also has to show that the optimiser always returns
 normally and that its stack analysis keeps every intermediate performance within the depth limit
-(that is where defects D1/D18 live); given that, `C01_passes_preserve_nodepth` concludes. -/
+(that is where defects D1/D18/D28 live); given that, `C01_passes_preserve_nodepth` concludes. -/
 def C01_full_statement : Prop :=
   ∀ (optimize : Nat → Song → Except Unit Song),
     (∀ thr S S', optimize thr S = .ok S' → ∃ l, chain S l ∧ lastSong S l = S') →
@@ -1087,6 +1090,152 @@ theorem C01_optimize_counts_le_255 (valid : Song → Bool) (hvalid : ∀ s, vali
   optimize_counts valid hvalid minScore fuel song _ [] r hwf
     (initialSubId_fresh hsorted hids) (validAll_of_ok hwf.nodup hok) hc hr (by simpa using hcnt)
 
+/-! ## the depth side of the loop fold (repair of defect D18)
+
+`C01_fold_accepts` leaves one failure open: the folded song may run out of stack frames.  The new
+loop encloses the period `A0·A1` — the phrase AND the part the break skips — and nothing else, so
+one frame of headroom around the period is exactly what the fold needs (`C01_fold_headroom`).  Since
+the repair, `find_match` applies its stack test to exactly those events (`LoopOK.room`,
+`C01_fold_budget_covers_period`); `C01_fold_keeps_depth_partial` concludes that the loop branch of
+`apply_match` keeps the song valid, given that the stack analysis is right about the period
+(`StackSoundAt`). -/
+
+/-- **Loop fold, acceptance without the depth proviso.**  `SW` is the song with the period wrapped
+in one more loop (`[ A0 A1 ]·(A0 A1)^k·A0` in place of `A0 A1·(A0 A1)^k·A0`; `ls0`/`le0` any
+`LOOP_START`/`LOOP_END` events).  If track `id` validates in `SW`, it validates in the folded song
+`S'`: the fold needs one stack frame of headroom around the period, in every performance that
+reaches it, and nothing more. -/
+theorem C01_fold_headroom {A0 A1 : List Node} {k : Nat} {ls lb le : Event} (h : FoldSide A0 A1 k ls lb le)
+    {ls0 le0 : Event} (kls0 : ls0.kind = .loopStart) (kle0 : le0.kind = .loopEnd)
+    (SW S' : Song) (l1 l2 : Tracks) (tid : Nat) (pre post : List Event)
+    (hSW : SW.tracks = l1 ++ (tid, pre ++ flattenL (foldSrcW A0 A1 k ls0 le0) ++ post) :: l2)
+    (hS' : S'.tracks = l1 ++ (tid, pre ++ foldX' A0 A1 ls lb le ++ post) :: l2)
+    (id : Nat) (t t' : List Event) (ht : SW.track? id = some t) (ht' : S'.track? id = some t')
+    (items : List Item) (hp : perf SW t = .ok items) : ∃ items', perf S' t' = .ok items' := by
+  have htr : SongRel (foldSrcW A0 A1 k ls0 le0) (foldDst A0 A1 ls lb le) SW S' := by
+    apply SongRel.of_tracks
+    rw [hSW, hS', foldDstX_eq]
+    exact TracksRel.one (ERel.refl _ _) l1 l2 tid (ERel.ctx _ _ pre post)
+  obtain ⟨t'', h1, hr⟩ := htr id t ht
+  rw [ht'] at h1
+  cases h1
+  exact perf_le SW S' (foldSrcW_closed h.c0 h.c1 k kls0 kle0) (foldDst_closed h.c0 h.c1 h.kls h.klb h.kle)
+    (fun _ hc => wrapfold_FLe hc A0 A1 k ls0 le0 ls lb le h.b0 h.b1 h.count) htr hr ⟨items, hp⟩
+
+/-- the same for the fold without remainder: `[ A ]·A^k ↦ [ A ](k+1)` -/
+theorem C01_fold0_headroom {A : List Node} {k : Nat} {ls le : Event} (h : Fold0Side A k ls le)
+    {ls0 le0 : Event} (kls0 : ls0.kind = .loopStart) (kle0 : le0.kind = .loopEnd)
+    (SW S' : Song) (l1 l2 : Tracks) (tid : Nat) (pre post : List Event)
+    (hSW : SW.tracks = l1 ++ (tid, pre ++ flattenL (fold0SrcW A k ls0 le0) ++ post) :: l2)
+    (hS' : S'.tracks = l1 ++ (tid, pre ++ fold0X' A ls le ++ post) :: l2)
+    (id : Nat) (t t' : List Event) (ht : SW.track? id = some t) (ht' : S'.track? id = some t')
+    (items : List Item) (hp : perf SW t = .ok items) : ∃ items', perf S' t' = .ok items' := by
+  have htr : SongRel (fold0SrcW A k ls0 le0) (fold0Dst A ls le) SW S' := by
+    apply SongRel.of_tracks
+    rw [hSW, hS', fold0DstX_eq]
+    exact TracksRel.one (ERel.refl _ _) l1 l2 tid (ERel.ctx _ _ pre post)
+  obtain ⟨t'', h1, hr⟩ := htr id t ht
+  rw [ht'] at h1
+  cases h1
+  exact perf_le SW S' (fold0SrcW_closed h.c0 k kls0 kle0)
+    (by simp [closedL, Node.closed, h.c0, h.kls, h.kle])
+    (fun _ hc => wrapfold0_FLe hc A k ls0 le0 ls le h.b0 h.count) htr hr ⟨items, hp⟩
+
+/-- **`find_match`'s stack test covers everything the new loop encloses** (the repair of D18).  For
+every match `find_match` returns with a loop candidate, every event of the period
+`[position, loopPosition)` — the matched phrase and the part before the repetition that the loop
+break skips — has a stack-list entry `u` with `u + base_usage < max_loop_stack`.  Before the repair
+the test was applied to the events of the matched copy only. -/
+theorem C01_fold_budget_covers_period {song : Song} {m : SAMap} {srcT srcStart : Nat} {mt : Match}
+    (hnd : (song.tracks.map (·.1)).Nodup) (h : findMatch song m srcT srcStart = .ok mt) (hne : mt.loopLength ≠ 0) :
+    ∀ i, mt.position ≤ i → i < mt.loopPosition →
+      ∃ u, (getSA m mt.trackId).eventList[i]? = some u ∧ u + (getSA m mt.trackId).baseUsage < maxLoopStack :=
+  ((findMatch_spec hnd h).2.2.2 hne).room
+
+/-- **`find_match`'s stack test covers the source phrase of a subroutine** (the other half of the
+repair of D18).  For every match `find_match` returns with a positive subroutine score, every event
+of the phrase `[position, position + subLength)` — the occurrence that `apply_match` replaces by
+the first call — has a stack-list entry `u` with `u + base_usage < max_src_stack` (= the 10 frames of
+the song validator, `C01_src_stack_le_limit`).  Before the repair only the other occurrences were
+tested. -/
+theorem C01_sub_budget_covers_source {song : Song} {m : SAMap} {srcT srcStart : Nat} {mt : Match}
+    (hnd : (song.tracks.map (·.1)).Nodup) (h : findMatch song m srcT srcStart = .ok mt) (hp : 0 < mt.subScore) :
+    ∀ i, mt.position ≤ i → i < mt.position + mt.subLength →
+      ∃ u, (getSA m mt.trackId).eventList[i]? = some u ∧ u + (getSA m mt.trackId).baseUsage < maxSrcStack := by
+  obtain ⟨ht, hpos, _, _⟩ := findMatch_spec hnd h
+  obtain ⟨src, hsrc⟩ := findMatch_track h
+  rw [ht, hpos]
+  exact findMatch_subRoom hsrc h hp
+
+/-- the budget of the source phrase is the depth limit of the validator (both constants are
+extracted from the C++ on every run) -/
+theorem C01_src_stack_le_limit : maxSrcStack ≤ (limit : Int) := by decide
+
+/-- the stack analysis is right about the period of the match `bm`: if every event of
+`[position, loopPosition)` passes the stack test of `find_match`, the period has one stack frame of
+headroom in every performance that reaches it — the song validates with the period wrapped in one
+more loop -/
+def StackSoundAt (song : Song) (m : SAMap) (bm : Match) : Prop :=
+  ∀ src, song.track? bm.trackId = some src →
+    (∀ i, bm.position ≤ i → i < bm.loopPosition → LoopRoom (getSA m bm.trackId) i) →
+    validAll (setTrack song bm.trackId (wrapTrack src bm.position bm.loopPosition)) = true
+
+/-- **Every loop fold the modelled optimiser performs keeps every track within the depth limit** —
+the statement without side condition on the stack analysis.  NOT proved, and false of the current
+code in this generality: the lists `analyze_stack` computes underestimate the depth of a track that is
+reached only through a chain of unused macro tracks with descending ids (finding D28, DESIGN.md;
+replayed on the real code).  `C01_fold_keeps_depth_partial` proves it with the hypothesis
+`StackSoundAt song m bm`. -/
+def C01_fold_keeps_depth_full_statement : Prop :=
+  ∀ (song : Song) (m : SAMap) (bm : Match) (subId : Int), SongWF song → validAll song = true →
+    analyzeStack song = .ok m → (∃ srcT srcPos, findMatch song m srcT srcPos = .ok bm) → bm.loopLength ≠ 0 →
+    ¬ bm.loopScore < bm.subScore →
+    ∃ S', applyMatch song m bm subId = .ok (S', m, subId) ∧ validAll S' = true
+
+/-- **The loop branch of `apply_match` keeps every track within the depth limit** (`_partial`: the
+extra hypothesis is `hsound`, the stack analysis is right about the period of the match).  For a
+well-formed song and a match that satisfies the conditions under which `find_match` records a loop
+candidate — among them, since the repair of D18, the stack test on every event of the period —
+the song the loop branch produces validates: every track, the folded one and every track that
+reaches it through calls, expands without error.  No run of the song validator is needed to know
+it. -/
+theorem C01_fold_keeps_depth_partial {song : Song} {m : SAMap} {bm : Match} {subId : Int} {src : List Event}
+    (hwf : SongWF song) (hok : LoopOK song m bm) (hbr : ¬ bm.loopScore < bm.subScore)
+    (hsrc : song.track? bm.trackId = some src) (hsound : StackSoundAt song m bm) :
+    ∃ S', applyMatch song m bm subId = .ok (S', m, subId) ∧ validAll S' = true := by
+  obtain ⟨w1, w2, w3⟩ := hwf.track hsrc
+  refine ⟨_, applyMatch_loop_eq hsrc hbr, ?_⟩
+  have hw := (hok.window hsrc w2).cap hok.lt
+  have hrep := repeats_small hok.lt hw.len w3
+  have hL : 3 ≤ capLoopLength (bm.loopPosition - bm.position) bm.loopLength := by
+    have := hok.minLen; rw [minLoopScore_eq] at this
+    exact capLoopLength_ge3 (Nat.sub_pos_of_lt hok.lt) this
+  obtain ⟨f1, f2, f3⟩ := foldedTrack_wf hok.lt hw.len hL hrep w1 w2
+  have hwf' := hwf.setTrack hsrc f1 f2 (by omega)
+  exact validAll_of_isOk hwf'.nodup
+    (fun id t' ht' => applyMatch_loop_keeps_valid hok hsrc w1 w2 (hsound src hsrc hok.room) id t' ht')
+
+/-- **One pass of `find_best_match` that takes the loop branch keeps the song valid** (`_partial`:
+`hsound` as above, for the match the pass chose): the validator run after such a pass cannot throw. -/
+theorem C01_loop_pass_keeps_valid_partial {song : Song} {m : SAMap} {subId : Int} {s' : Song} {best : Match}
+    {subId' : Int} (hwf : SongWF song) (hval : validAll song = true)
+    (hfb : findBestMatch song m subId = .ok (s', best, subId'))
+    (hl : ¬ best.loopScore < best.subScore) (hsound : StackSoundAt song m best) : validAll s' = true := by
+  rcases findBestMatch_spec hfb with ⟨_, h1, _⟩ | ⟨_, ⟨srcT, srcPos, hfm⟩, m', happ⟩
+  · rw [h1]; exact hval
+  · obtain ⟨_, _, _, hlo⟩ := findMatch_spec hwf.nodup hfm
+    have hne : best.loopLength ≠ 0 := by
+      unfold Match.loopScore at hl
+      omega
+    have hok := hlo hne
+    obtain ⟨len0, hf⟩ := hok.fml
+    obtain ⟨src, _, hsrc, _, _⟩ := findMatchLength_spec hf
+    obtain ⟨S', happ', hv⟩ := C01_fold_keeps_depth_partial (subId := subId) hwf hok hl hsrc hsound
+    rw [happ'] at happ
+    simp only [Except.ok.injEq, Prod.mk.injEq] at happ
+    rw [← happ.1]
+    exact hv
+
 end Ctrmml.C01
 
 /-! ## concrete instances for layers 2–3
@@ -1119,14 +1268,21 @@ theorem wfL : SongWF songL := by
   exact ⟨by decide, by decide, by decide⟩
 
 theorem loopOK_L : LoopOK songL mL bmL := by
-  refine ⟨by decide, by decide, by decide, ⟨5, by rfl⟩, ?_⟩
-  intro src hsrc
-  have : src = [n 1, n 1, n 1, n 1, n 1, n 1] := by
-    have h : songL.track? 0 = some [n 1, n 1, n 1, n 1, n 1, n 1] := rfl
-    rw [show bmL.trackId = 0 from rfl, h] at hsrc
-    exact (Option.some.inj hsrc).symm
-  subst this
-  decide
+  refine ⟨by decide, by decide, by decide, ⟨5, by rfl⟩, ?_, ?_⟩
+  · intro src hsrc
+    have : src = [n 1, n 1, n 1, n 1, n 1, n 1] := by
+      have h : songL.track? 0 = some [n 1, n 1, n 1, n 1, n 1, n 1] := rfl
+      rw [show bmL.trackId = 0 from rfl, h] at hsrc
+      exact (Option.some.inj hsrc).symm
+    subst this
+    decide
+  · -- the period is the one event at index 0: stack usage 0 + base 0 < 6
+    intro i _ h2
+    have : i = 0 := by
+      have : bmL.loopPosition = 1 := rfl
+      omega
+    subst this
+    exact ⟨0, by decide, by decide⟩
 
 example : ∃ S', applyMatch songL mL bmL 15000 = .ok (S', mL, 15000) ∧ StepN songL S' := by
   obtain ⟨S', h1, h2, _⟩ := applyMatch_loop_is_step (subId := 15000) loopOK_L (by decide)
@@ -1284,14 +1440,20 @@ theorem loopOK_C : LoopOK songC mC bmC := by
     cases hx : findMatchLength songC mC 0 0 0 1 true with
     | error e => rw [hx] at h; simp [okv] at h
     | ok v => rw [hx] at h; simp only [okv, Option.some.injEq] at h; rw [h]
-  refine ⟨by decide, by decide, by decide, ⟨299, hf⟩, ?_⟩
-  intro src hsrc
-  have : src = List.replicate 300 (n 1) := by
-    have h : songC.track? 0 = some (List.replicate 300 (n 1)) := rfl
-    rw [show bmC.trackId = 0 from rfl, h] at hsrc
-    exact (Option.some.inj hsrc).symm
-  subst this
-  decide +kernel
+  refine ⟨by decide, by decide, by decide, ⟨299, hf⟩, ?_, ?_⟩
+  · intro src hsrc
+    have : src = List.replicate 300 (n 1) := by
+      have h : songC.track? 0 = some (List.replicate 300 (n 1)) := rfl
+      rw [show bmC.trackId = 0 from rfl, h] at hsrc
+      exact (Option.some.inj hsrc).symm
+    subst this
+    decide +kernel
+  · intro i _ h2
+    have : i = 0 := by
+      have : bmC.loopPosition = 1 := rfl
+      omega
+    subst this
+    exact ⟨0, by decide +kernel, by decide⟩
 
 /-- `C01_fold_count_le_255` on that match: the inserted count is 255 -/
 example : ∃ (c : Nat) (t' : List Event), c = 255 ∧
@@ -1325,5 +1487,151 @@ example (r : OptResult) (hr : optimize validAll 0 5 songL (initialSubId songL) [
 example (s' : Song) (best : Match) (id' : Int) (hfb : findBestMatch songL mL 15000 = .ok (s', best, id')) :
     SongCounts s' :=
   C01_pass_counts wfL freshL (by decide) (by decide) (by decide) hfb
+
+/-! ### the depth side of the loop fold (repair of D18) -/
+
+def isOkB : Res → Bool | .ok _ => true | .error _ => false
+
+/-- `C01_fold_headroom` on the songs of `Ex` (track 0 calls track 1, which holds `pre A A A0 post`
+inside an open loop of the context): `SW` has the first `A` wrapped in `[ … ]1` -/
+def SW : Song := { tracks := [(0, [Ex.note 5, Ex.jmp 1, Ex.note 5]),
+  (1, Ex.pre ++ flattenL (foldSrcW Ex.A0 Ex.A1 1 Ex.lsE (Ex.leE 1)) ++ Ex.post)] }
+
+example (id : Nat) (t t' : List Event) (ht : SW.track? id = some t) (ht' : Ex.S'.track? id = some t')
+    (items : List Item) (hp : perf SW t = .ok items) : ∃ items', perf Ex.S' t' = .ok items' :=
+  C01_fold_headroom Ex.side (by decide) (by decide) SW Ex.S' [(0, [Ex.note 5, Ex.jmp 1, Ex.note 5])] [] 1
+    Ex.pre Ex.post rfl rfl id t t' ht ht' items hp
+
+/-- … its hypothesis holds for both tracks of `SW`, and so does its conclusion, evaluated -/
+example : (SW.tracks.map fun p => isOkB (perf SW p.2)) = [true, true] ∧
+    (Ex.S'.tracks.map fun p => isOkB (perf Ex.S' p.2)) = [true, true] := by decide
+
+/-- the headroom hypothesis is what fails in the D18 situation: inside nine enclosing loops the
+wrapped period runs out of frames (and so does the folded song, `Ex`, above) -/
+example : Ex.isDepthErr (perf ⟨[]⟩ (Ex.deepPre ++ flattenL (foldSrcW Ex.A0 Ex.A1 0 Ex.lsE (Ex.leE 1)) ++ Ex.deepPost)) = true := by
+  decide
+
+/-- `StackSoundAt` holds for the fold of `songL`: one note wrapped in a loop validates -/
+theorem soundL : StackSoundAt songL mL bmL := by
+  intro src hsrc _
+  have : src = [n 1, n 1, n 1, n 1, n 1, n 1] := by
+    have h : songL.track? 0 = some [n 1, n 1, n 1, n 1, n 1, n 1] := rfl
+    rw [show bmL.trackId = 0 from rfl, h] at hsrc
+    exact (Option.some.inj hsrc).symm
+  subst this
+  decide
+
+/-- `C01_fold_keeps_depth_partial` on that fold: the result (`[c]6`, evaluated above) validates -/
+example : ∃ S', applyMatch songL mL bmL 15000 = .ok (S', mL, 15000) ∧ validAll S' = true :=
+  C01_fold_keeps_depth_partial (subId := 15000) (src := [n 1, n 1, n 1, n 1, n 1, n 1]) wfL loopOK_L (by decide) rfl soundL
+
+/-- `C01_loop_pass_keeps_valid_partial` on the pass that folds `songL` -/
+example (s' : Song) (best : Match) (id' : Int) (hfb : findBestMatch songL mL 15000 = .ok (s', best, id'))
+    (hl : ¬ best.loopScore < best.subScore) (hs : StackSoundAt songL mL best) : validAll s' = true :=
+  C01_loop_pass_keeps_valid_partial wfL (by decide) hfb hl hs
+
+/-- the corpus case of D18, `c d e [x10 g ]x10 c d e`, with the stack lists `analyze_stack` computes
+for it (2 per open loop): since the repair `find_best_match` finds nothing to do — the only repeated
+phrase would need a loop around the ten-deep nest (usage 20 ≥ `max_loop_stack`).  Before the repair
+the pass folded it and the validator threw "stack overflow (depth limit reached)". -/
+def lsD : Event := ⟨ev_LOOP_START, 0, 0, 0⟩
+def leD : Event := ⟨ev_LOOP_END, 2, 0, 0⟩
+def songD : Song := { tracks := [(0, [n 1, n 2, n 3] ++ List.replicate 10 lsD ++ [n 4] ++ List.replicate 10 leD ++ [n 1, n 2, n 3])] }
+def listD : List Int := [0, 0, 0, 2, 4, 6, 8, 10, 12, 14, 16, 18, 20, 20, 20, 18, 16, 14, 12, 10, 8, 6, 4, 2, 0, 0, 0]
+def mD : SAMap := [(0, { maxUsage := 20, eventList := listD })]
+
+example : okv ((findBestMatch songD mD 15000).map fun r => (r.1.tracks == songD.tracks, r.2.1.bestScore)) =
+    some (true, 0) := by decide +kernel
+
+/-- the candidate it rejects: the phrase at 0, its repetition at 24; the event at index 5 (the third
+`LOOP_START` of the nest, usage 6) fails the stack test, so `LoopOK` does not hold of it -/
+example : ¬ LoopRoom (getSA mD 0) 5 := by
+  rintro ⟨u, hu, hlt⟩
+  have : u = 6 := by
+    have h : (getSA mD 0).eventList[5]? = some 6 := by decide
+    rw [h] at hu
+    exact (Option.some.inj hu).symm
+  subst this
+  revert hlt
+  decide
+
+/-- the subroutine half of the repair: `[x9 c [d]2 e f ]x9 c [d]2 e f` — the phrase inside nine loops
+(usage 18) is not a subroutine candidate any more (`max_src_stack = 10`); the pass finds nothing to do.
+Before the repair it was extracted and the call inside nine loops to a subroutine with a loop of its
+own needed an eleventh frame. -/
+def phraseN : List Event := [n 1, lsD, n 2, leD, n 3, n 4]
+def songN : Song := { tracks := [(0, List.replicate 9 lsD ++ phraseN ++ List.replicate 9 leD ++ phraseN)] }
+def listN : List Int := [2, 4, 6, 8, 10, 12, 14, 16, 18, 18, 20, 20, 20, 18, 18, 18, 16, 14, 12, 10, 8, 6, 4, 2, 0, 2, 2, 2, 0, 0]
+def mN : SAMap := [(0, { maxUsage := 20, eventList := listN })]
+
+example : okv ((findBestMatch songN mN 15000).map fun r => (r.1.tracks == songN.tracks, r.2.1.bestScore)) =
+    some (true, 0) := by decide +kernel
+
+/-! ### the hypothesis `StackSoundAt` cannot be dropped (finding D28)
+
+Ten unused macro tracks `*20 … *29`, each calling the one below it, `*20` calling `*30`; `*30` holds a
+phrase three times.  `analyze_stack` analyses `*20` as a root (base usage 0: `*30` gets base usage 1),
+then marks it unused (`base_usage = 100`); the callers `*21 … *29`, analysed later, find `100` there and
+do not analyse `*20` again, so `*30` keeps base usage 1 although the validator reaches it through
+`*29 → … → *20 → *30` with all ten frames in use.  The fold of `*30` passes the stack test and the
+validator throws "stack overflow (depth limit reached)" on the result.  (`mU` is the map the compiled
+model's `analyzeStack songU` returns; the kernel cannot evaluate the well-founded recursion of
+`analyze_track`.  Replayed on the real code: corpus case "D28" of checks/c01.py.) -/
+
+def songU : Song := { tracks := [(20, [jmp 30]), (21, [jmp 20]), (22, [jmp 21]), (23, [jmp 22]), (24, [jmp 23]),
+  (25, [jmp 24]), (26, [jmp 25]), (27, [jmp 26]), (28, [jmp 27]), (29, [jmp 28]),
+  (30, [n 1, n 2, n 3, n 1, n 2, n 3, n 1, n 2, n 3])] }
+def mU : SAMap := [(20, { baseUsage := 100, maxUsage := 1, eventList := [1] }),
+  (30, { baseUsage := 1, maxUsage := 0, eventList := [0, 0, 0, 0, 0, 0, 0, 0, 0] }),
+  (21, { baseUsage := 100, maxUsage := 2, eventList := [2] }), (22, { baseUsage := 100, maxUsage := 3, eventList := [3] }),
+  (23, { baseUsage := 100, maxUsage := 4, eventList := [4] }), (24, { baseUsage := 100, maxUsage := 5, eventList := [5] }),
+  (25, { baseUsage := 100, maxUsage := 6, eventList := [6] }), (26, { baseUsage := 100, maxUsage := 7, eventList := [7] }),
+  (27, { baseUsage := 100, maxUsage := 8, eventList := [8] }), (28, { baseUsage := 100, maxUsage := 9, eventList := [9] }),
+  (29, { baseUsage := 100, maxUsage := 10, eventList := [10] })]
+def bmU : Match := { trackId := 30, position := 0, loopPosition := 3, loopLength := 6 }
+
+theorem wfU : SongWF songU := by
+  refine ⟨by decide, ?_⟩
+  intro p hp
+  simp only [songU, List.mem_cons, List.not_mem_nil, or_false] at hp
+  rcases hp with rfl | rfl | rfl | rfl | rfl | rfl | rfl | rfl | rfl | rfl | rfl <;>
+    exact ⟨by decide, by decide, by decide⟩
+
+theorem loopOK_U : LoopOK songU mU bmU := by
+  have hf : findMatchLength songU mU 30 0 30 3 true = .ok (6, 6) := by
+    have h : okv (findMatchLength songU mU 30 0 30 3 true) = some (6, 6) := by decide +kernel
+    cases hx : findMatchLength songU mU 30 0 30 3 true with
+    | error e => rw [hx] at h; simp [okv] at h
+    | ok v => rw [hx] at h; simp only [okv, Option.some.injEq] at h; rw [h]
+  refine ⟨by decide, by decide, by decide, ⟨6, hf⟩, ?_, ?_⟩
+  · intro src hsrc
+    have : src = [n 1, n 2, n 3, n 1, n 2, n 3, n 1, n 2, n 3] := by
+      have h : songU.track? 30 = some [n 1, n 2, n 3, n 1, n 2, n 3, n 1, n 2, n 3] := by decide
+      rw [show bmU.trackId = 30 from rfl, h] at hsrc
+      exact (Option.some.inj hsrc).symm
+    subst this
+    decide
+  · intro i _ h2
+    have h3 : bmU.loopPosition = 3 := rfl
+    have : i = 0 ∨ i = 1 ∨ i = 2 := by omega
+    rcases this with rfl | rfl | rfl <;> exact ⟨0, by decide, by decide⟩
+
+/-- the song validates, the match passes every test of `find_match` (the stack test on the whole period
+included), the loop branch is taken — and the folded song does not validate -/
+theorem D28_witness : validAll songU = true ∧ LoopOK songU mU bmU ∧ ¬ bmU.loopScore < bmU.subScore ∧
+    okv ((applyMatch songU mU bmU 15000).map fun r => validAll r.1) = some false :=
+  ⟨by decide +kernel, loopOK_U, by decide, by decide +kernel⟩
+
+/-- hence the stack analysis is not right about this period: `C01_fold_keeps_depth_partial` needs its
+hypothesis -/
+theorem stackSound_needed : ¬ StackSoundAt songU mU bmU := by
+  intro hs
+  obtain ⟨S', happ, hv⟩ := C01_fold_keeps_depth_partial (subId := 15000)
+    (src := [n 1, n 2, n 3, n 1, n 2, n 3, n 1, n 2, n 3]) wfU loopOK_U (by decide) (by decide) hs
+  have h := D28_witness.2.2.2
+  rw [happ] at h
+  simp only [Except.map, okv, Option.some.injEq] at h
+  rw [hv] at h
+  cases h
 
 end Ctrmml.C01.Ex2
